@@ -138,7 +138,7 @@ def run_one(ctx, d, refattrs, data, case):
     # correspondence of the loader on the source parts
     def part(nm):
         return '(Some %s)' % sx_str(src['members'][nm].decode('utf-8', 'replace')) if nm in src['members'] else 'None'
-    big = sum(len(src['members'].get(n, b'')) for n in L.PARTS) > (150000 if ctx.quick else 2000000)
+    big = sum(len(src['members'].get(n, b'')) for n in L.PARTS) > (150000 if ctx.quick else 400000)
     m = ['ERROR'] if big else d.call('doc_load_xml', sx_str(doc.mimetype), part('settings.xml'), part('meta.xml'), part('content.xml'), part('styles.xml'))
     if big: ctx.bump('correspondence-skipped-large-package')
     elif m and m[0] == 'ERROR':
